@@ -4,6 +4,8 @@ import NbioVerif.Lemmas.SrcBridgeConn
 #print axioms ReadPath.c02_gate
 #print axioms ReadPath.c02_no_lost_edge
 #print axioms ReadPath.c02_quiescent
+#print axioms ReadPath.c02_report_enabled
+#print axioms ReadPath.c02_progress
 #print axioms ReadPath.c02_delivery_stream
 #print axioms ReadPath.c02_delivered_prefix
 #print axioms ReadPath.c02_delivery_udp
